@@ -189,6 +189,19 @@ package mkvs
 
 // ---- remote sync (C04): a fetched proof that does not contain the requested node is an error, never "absent" ----
 
+
+// ---- tree iterator descent (C03): which children of an internal node a Seek/Next step tries ----
+
+//@ ghost var GDoNext int
+
+//@ func treeIterator.doNext
+//@   props C03
+//@   requires it != nil && it.tree != nil && it.tree.cache != nil
+//@   ensures-local err == nil && defined(newPath) && state == visitBefore && it.key == nil && (8 * len(old(key)) <= int(newBitDepth) || (newBitDepth > 0 && 8 * len(old(key)) >= int(newBitDepth) && uf("keyCompare", old(key), newPath) < 0)) ==> GDoNext >= old(GDoNext) + 3
+//@   ensures-local err == nil && defined(newPath) && state == visitAt && it.key == nil ==> GDoNext >= old(GDoNext) + 1
+//@   ensures-local err == nil && defined(newPath) && state == visitAtLeft && it.key == nil ==> GDoNext >= old(GDoNext) + 1
+//@   note GDoNext counts the direct recursive descents of one activation. Arriving at an internal node from above with a seek key that is not longer than the node's path, or that is longer but sorts before the path (so that the whole subtree is at or after the seek position), and finding nothing, the step has descended into all three children - the node's own leaf first: the key stored AT an internal node (a key that is a prefix of other keys) is not skipped
+
 //@ ghost var GRemoteSyncs int
 
 //@ func cache.derefNodePtr
